@@ -237,6 +237,13 @@ pub fn small_scope() -> Vec<Case> {
 pub fn streams() -> Vec<Box<dyn AnyStream>> {
     vec![
         Box::new(Stream::<Case> {
+            name: "nested-pairs",
+            quick: 0,
+            thorough: 0,
+            source: Source::Enum(Box::new(|_| Box::new(crate::props::c01::nested_pairs().into_iter().filter(|(fi, _)| *fi == fmts::ASCII).map(|(_, nd)| Case::Enum(nd))))),
+            check: Box::new(check),
+        }),
+        Box::new(Stream::<Case> {
             name: "small-scope",
             quick: 0,
             thorough: 0,
